@@ -95,6 +95,15 @@ struct World {
     est: [HashMap<u32, usize>; 2],
     pend: [HashMap<u32, u64>; 2],
     inc: [HashMap<u64, u32>; 2],
+    /// wire-level bookkeeping per endpoint: flow ids of `Reset` frames delivered to / emitted by it
+    rst_in: [std::collections::HashSet<u32>; 2],
+    rst_out: [std::collections::HashSet<u32>; 2],
+    /// `Bind(id)` delivered to the endpoint and not yet answered (1) / answered with `Finish(id)` (2);
+    /// the entry is forgotten as soon as any other stream frame with that id reaches or leaves the endpoint
+    bind_wire: [HashMap<u32, u8>; 2],
+    /// the application answered one bind request object twice (then a second answer frame is its doing)
+    replied: std::collections::HashSet<(usize, usize)>,
+    double_reply: bool,
 }
 
 const NAMES: [&str; 2] = ["A", "B"];
@@ -166,6 +175,11 @@ impl World {
             est: [HashMap::new(), HashMap::new()],
             pend: [HashMap::new(), HashMap::new()],
             inc: [HashMap::new(), HashMap::new()],
+            rst_in: [std::collections::HashSet::new(), std::collections::HashSet::new()],
+            rst_out: [std::collections::HashSet::new(), std::collections::HashSet::new()],
+            bind_wire: [HashMap::new(), HashMap::new()],
+            replied: std::collections::HashSet::new(),
+            double_reply: false,
         };
         for v in &mut w.view {
             v.mux_alive = true;
@@ -237,6 +251,24 @@ impl World {
             self.est[e].clear();
             self.pend[e].clear();
             self.inc[e].clear();
+            self.bind_wire[e].clear();
+        }
+        // endpoint e is running: no terminating stimulus so far, task not finished
+        let up_e = !self.view[e].exited && self.view[e].terminated_by.is_none();
+        let both_up = up_e && !self.view[1 - e].exited && self.view[1 - e].terminated_by.is_none();
+        if t[0] == "deliver" && t.get(1) == Some(&"bin") {
+            if let Some((op, id, _)) = t.get(2).and_then(|h| parse_frame(h)) {
+                if op != 6 {
+                    // any stream frame for this id that reaches e may be the reason for a later Reset
+                    self.bind_wire[e].remove(&id);
+                    if op == 2 {
+                        self.rst_in[e].insert(id);
+                    }
+                    if op == 5 && frame_valid(t[2]) && clean && !lagging && up_e {
+                        self.bind_wire[e].insert(id, 1);
+                    }
+                }
+            }
         }
         match (t[0], res_t.as_slice()) {
             ("open", ["started"]) => {
@@ -352,6 +384,28 @@ impl World {
                 self.est[e].clear();
                 self.pend[e].clear();
                 self.inc[e].clear();
+                // C06, "the peer is told": the application lets go of a stream it has not shut down while
+                // the peer application may still be reading it. Unless a Reset of that flow has already
+                // passed in either direction, only a Reset from this endpoint can end the peer's reads,
+                // and with the sink open it is on the wire when the endpoint is quiescent again.
+                let hi = self.view[e].handles[h].clone();
+                if clean && !self.reused && !lagging && both_up && !hi.shutdown && !hi.broken {
+                    if let Some(p) = hi.port {
+                        let mut ids: Vec<u32> = self.fid_port.iter().filter(|(_, pp)| **pp == p).map(|(f, _)| *f).collect();
+                        ids.sort_unstable();
+                        let peer_gone = self.port_handle.get(&p).and_then(|ent| ent[1 - e]).is_some_and(|ph| !self.view[1 - e].handles[ph].alive);
+                        let told_before = ids.iter().any(|id| self.rst_in[e].contains(id) || self.rst_out[e].contains(id));
+                        let told_now = ids.iter().any(|id| {
+                            let m = format!("wire {}", hexd(&[&[0x72u8][..], &id.to_be_bytes()[..]].concat()));
+                            evs.split("; ").any(|ev| ev == m)
+                        });
+                        if !ids.is_empty() && !peer_gone && !told_before && !told_now {
+                            let msg = format!("the application of {} dropped stream #{h} (flow {}) without shutting it down while the connection is up and no Reset of that flow had passed; endpoint {} is quiescent and has put no Reset for it on the wire: the peer is never told of the abort (events of the step: {})",
+                                NAMES[e], ids.iter().map(|i| format!("{i:08x}")).collect::<Vec<_>>().join("/"), NAMES[e], if evs.is_empty() { "none" } else { evs });
+                            self.fail("C06", "abort-not-signalled", msg);
+                        }
+                    }
+                }
                 self.view[e].handles[h].alive = false;
                 if !self.view[e].handles[h].shutdown {
                     self.aborted.insert((e, h), true);
@@ -386,6 +440,9 @@ impl World {
             }
             ("bindreply", ["unit"]) => {
                 let k: usize = t[1].parse().unwrap();
+                if !self.replied.insert((e, k)) {
+                    self.double_reply = true;
+                }
                 if let Some(port) = self.bind_held.get(&(e, k)).copied() {
                     // the first answer counts
                     self.bind_decision.entry(port).or_insert(t[2] == "1");
@@ -554,6 +611,28 @@ impl World {
                         if op == 2 || op == 3 {
                             self.pend[e].remove(&id);
                             self.inc[e].retain(|_, v| *v != id);
+                        }
+                        // C15, "the flow id is free for reuse afterwards": once e has answered Bind(id) with
+                        // Finish(id) the exchange is over; the requester may give the id to a new flow at once.
+                        // A Reset(id) that e sends after that, without having received or sent anything else
+                        // on that id, belongs to no flow and hits whatever the requester does with the id next.
+                        // (Only judged while no flow id has been used twice in the case: then the id has had
+                        // no other owner, and the stray frame precedes any reuse.)
+                        match op {
+                            3 => {
+                                if let Some(st) = self.bind_wire[e].get_mut(&id) {
+                                    if *st == 1 { *st = 2; } else { self.bind_wire[e].remove(&id); }
+                                }
+                            }
+                            2 => {
+                                self.rst_out[e].insert(id);
+                                if self.bind_wire[e].remove(&id) == Some(2) && clean && !self.reused && !self.double_reply && !lagging && up_e {
+                                    let msg = format!("endpoint {} answered Bind on flow {id:08x} with Finish (accepted) and afterwards, having received nothing else on that id, put Reset {id:08x} on the wire (at `{}`): the stray Reset rejects or closes whatever the requester uses the freed id for next", NAMES[e], t.join(" "));
+                                    self.fail("C15", "reset-after-bind-accept", msg);
+                                }
+                            }
+                            6 => {}
+                            _ => { self.bind_wire[e].remove(&id); }
                         }
                         if op == 0 {
                             if let Some((_, _, p)) = parse_frame(m) {
@@ -801,13 +880,20 @@ fn run_case(r: &mut Rng, focus: Focus, len: usize) -> World {
         oa.threshold = oa.rwnd * 2;
         ob.rwnd = *r.pick(&[8, 16]);
     }
+    // C07: a burst of opens against an acceptor that is momentarily not accepting, with more requests
+    // than its accept queue holds (the receive loop then has to wait for the application)
+    let burst = focus == Focus::C07 && r.chance(1, 4);
+    if burst {
+        oa.accept_cap = r.range(1, 2) as usize;
+        ob.accept_cap = r.range(1, 2) as usize;
+    }
     let mut w = World::new([oa, ob]);
     w.silent = matches!(focus, Focus::C08) && r.chance(1, 4);
     // scripted ids: small alphabet so that collisions and reuse happen
     // forced id reuse only where flow-id discipline is the subject (C06, C07, C10, C15); elsewhere ids are
     // large random numbers (reuse of an id while frames of its previous incarnation are in flight is
     // the known protocol-level finding recorded under C06)
-    let small_ids = matches!(focus, Focus::C06 | Focus::C07 | Focus::C10 | Focus::C15) && r.chance(2, 3);
+    let small_ids = matches!(focus, Focus::C06 | Focus::C07 | Focus::C10 | Focus::C15) && r.chance(2, 3) && !burst;
     for e in 0..2 {
         let ks: Vec<String> = (0..24).map(|_| if small_ids { s(r.range(0, 4)) } else { s(r.range(1, 0xffff_ffff)) }).collect();
         let mut t = vec![s("rng")];
@@ -818,6 +904,20 @@ fn run_case(r: &mut Rng, focus: Focus, len: usize) -> World {
     let mut tags = [0u8; 2];
     tags[0] = r.next() as u8;
     tags[1] = r.next() as u8;
+    if burst {
+        let e = r.below(2) as usize;
+        let n = w.opts[1 - e].accept_cap as u64 + r.range(1, 2);
+        for _ in 0..n {
+            let req = w.next_req; w.next_req += 1; w.view[e].rng_left -= 4;
+            let hl = r.range(1, 6) as usize;
+            w.stim(e, &[s("open"), s(req), hexd(&r.bytes(hl)), s(1000 + req)]);
+        }
+        // the Connects arrive back to back; the acceptor's application is busy (it rarely accepts now)
+        while w.deliver_next(1 - e) {
+            if r.chance(1, 8) { w.stim(1 - e, &[s("accept")]); }
+        }
+        while w.deliver_next(e) {}
+    }
     for _ in 0..len {
         let e = r.below(2) as usize;
         if w.view[e].exited && r.chance(3, 4) {
@@ -1069,6 +1169,36 @@ fn fair_completion(w: &mut World, rounds: usize) {
 
 /// Liveness monitors, evaluated at the end of a case (and at the end of a replay).
 fn final_checks(w: &mut World) {
+    // Judged only when both connection tasks are still running with their Multiplexors alive, nothing
+    // was injected, no flow id was used twice, nothing is in flight and no sink is held: the completion
+    // phase has then delivered every frame, emptied the accept queues and read every stream to its end.
+    let settled = (0..2).all(|e| !w.view[e].exited && w.view[e].terminated_by.is_none() && w.view[e].mux_alive && !w.sink_blocked[e] && w.wire[e].is_empty())
+        && !w.injected && !w.reused;
+    if settled {
+        // C07: each successful stream request yields exactly one stream on each endpoint
+        let mut ports: Vec<u64> = w.port_handle.keys().copied().collect();
+        ports.sort_unstable();
+        for port in ports {
+            let Some((oe, req)) = w.open_ports.get(&port).copied() else { continue };
+            let ent = w.port_handle[&port];
+            if let (Some(h), None) = (ent[oe], ent[1 - oe]) {
+                let msg = format!("open request {req} of {} (port {port}) resolved Ok (stream {}#{h}), but the application of {} was never handed a stream for it although it accepted until its accept queue was empty, the connection is up and nothing is in flight (accept queue capacity of {}: {})",
+                    NAMES[oe], NAMES[oe], NAMES[1 - oe], NAMES[1 - oe], w.opts[1 - oe].accept_cap);
+                w.fail("C07", "open-ok-without-accept", msg);
+            }
+        }
+        // C06: after an abort the peer's reads return what had been delivered and then end-of-stream
+        let mut ab: Vec<(usize, usize)> = w.aborted.iter().filter(|(_, v)| **v).map(|(k, _)| *k).collect();
+        ab.sort_unstable();
+        for (e, h) in ab {
+            let Some((pe, ph)) = w.peer_handle(e, h) else { continue };
+            let p = &w.view[pe].handles[ph];
+            if p.alive && !p.eof {
+                let msg = format!("the application of {} dropped stream #{h} without shutting it down; the peer application still holds {}#{ph} and has read everything that arrived, the connection is up and nothing is in flight, yet its read never reports end-of-stream", NAMES[e], NAMES[pe]);
+                w.fail("C06", "peer-read-pending-after-abort", msg);
+            }
+        }
+    }
     for e in 0..2 {
         let both_up = !w.view[0].exited && !w.view[1].exited && w.view[0].terminated_by.is_none() && w.view[1].terminated_by.is_none();
         for h in 0..w.view[e].handles.len() {
